@@ -203,3 +203,13 @@ func vh_C01_front_smoke_Q() {
 		symxAssert(len(ctrls[0].Receivers) == 1 && ctrls[0].Receivers[0].Name == "Get", "C01.front.exactly-the-annotated-methods-of-the-controller")
 	}
 }
+
+// VhDepSource returns the stand-in source text of a fixture dependency ("" when path is not one of them)
+func VhDepSource(path string) string {
+	for _, d := range vhDepSources {
+		if d.path == path {
+			return d.src
+		}
+	}
+	return ""
+}
